@@ -122,6 +122,17 @@ var families = []family{
 	{"many-statements", func(n int) string {
 		return join(n, func(i int) string { return fmt.Sprintf("SELECT a, b FROM t%d WHERE a = %d", i, i) }, ";\n")
 	}},
+	{"many-bad-statements", func(n int) string {
+		return join(n, func(i int) string { return fmt.Sprintf("SELECT a FROM t%d WHERE", i) }, ";\n")
+	}},
+	{"alternating-bad-statements", func(n int) string {
+		return join(n, func(i int) string {
+			if i%2 == 0 {
+				return fmt.Sprintf("SELECT a FROM t%d", i)
+			}
+			return "SELECT FROM )"
+		}, ";\n")
+	}},
 	{"long-literal", func(n int) string { return "SELECT '" + strings.Repeat("x", n*8) + "' FROM t" }},
 	{"long-identifier", func(n int) string { return "SELECT " + strings.Repeat("y", n*8) + " FROM t" }},
 	{"joins", func(n int) string {
@@ -362,7 +373,8 @@ func main() {
 				}
 			} else if tier != "thorough" && !quickOps[o.name] && !quickFams[f.name] &&
 				!(o.name == "formatter-pkg" && strings.Contains(f.name, "comment")) && // the serialiser that re-attaches comments, on every comment family
-				!(o.name == "extract" && strings.HasPrefix(f.name, "distinct-")) { // the extractors de-duplicate names
+				!(o.name == "extract" && strings.HasPrefix(f.name, "distinct-")) && // the extractors de-duplicate names
+				!(o.name == "recovery" && strings.Contains(f.name, "statements")) { // the recovery loop, on scripts
 				continue
 			}
 			jobs = append(jobs, &job{fam: f.name, op: o.name})
